@@ -94,6 +94,20 @@ func C14(r *simkit.Run) {
 	// failure leaves the block's transaction open); a transaction block that is never closed; an
 	// object every statement creates fine but the state reading that follows the replay cannot
 	// digest (the failure happens between the replay and the restore); a process crash.
+	// Sometimes a file wraps some of its statements in an explicit, well-formed BEGIN ... COMMIT
+	// block: whatever stops the replay inside it (a crash, an interrupt) stops it with that
+	// transaction open.
+	if t.Chance("well-formed-transaction-block", 1, 4) {
+		f := files[t.Draw("block-file", len(files))]
+		tag := fmt.Sprintf("f%d", f.Idx)
+		k := len(f.Stmts)
+		f.Stmts = append(f.Stmts,
+			Stmt{ID: fmt.Sprintf("%s.s%d", tag, k), Kind: KDDL, SQL: "BEGIN"},
+			Stmt{ID: fmt.Sprintf("%s.s%d", tag, k+1), Kind: KDDL, SQL: fmt.Sprintf("CREATE TABLE blk1_%s (id int)", tag)},
+			Stmt{ID: fmt.Sprintf("%s.s%d", tag, k+2), Kind: KDDL, SQL: fmt.Sprintf("CREATE TABLE blk2_%s (id int)", tag)},
+			Stmt{ID: fmt.Sprintf("%s.s%d", tag, k+3), Kind: KDDL, SQL: "COMMIT"})
+		r.Probe("directory-with-transaction-block")
+	}
 	fault := []string{"none", "bad-statement", "crash", "bad-statement-in-transaction-block", "unterminated-transaction-block", "unreadable-object", "interrupt"}[t.Weighted("fault", 2, 3, 2, 1, 1, 2, 2)]
 	if command == "migrate-lint" && (fault == "crash" || fault == "interrupt") {
 		fault = "bad-statement" // lint replays with its own loop: no instrumented point
@@ -291,7 +305,7 @@ func C14(r *simkit.Run) {
 		// SIGINT, acknowledges it (its context is cancelled) and is released.
 		pts := []string{"exec:before-stmt", "exec:after-stmt", "replay:before-restore"}
 		p := pts[t.Draw("interrupt-point", len(pts))]
-		occ := 1 + t.Draw("interrupt-occurrence", 3)
+		occ := 1 + t.Draw("interrupt-occurrence", 8)
 		r.Configured("interrupt-in-replay")
 		var reached bool
 		res, reached = w.atlasInterrupted(p, occ, argsOf()...)
